@@ -204,10 +204,13 @@ def violation_sig(prefix, r):
 
 class Tracker:
     """Which segmented transfer is running and which toggle its next segment must carry, as far as a
-    bystander can tell from request/response pairs (idle = unknown / none: no demand)."""
+    bystander can tell from request/response pairs (idle = unknown / none: no demand).  For a download
+    begun by a full 8-byte initiate frame and continued by full 8-byte segment frames it also keeps the
+    multiplexer and the bytes transferred so far: CiA 301 lets EVERY download segment carry 0..7 data
+    bytes (n = number of unused bytes), so the value is the concatenation of the 7-n data bytes of each."""
 
     def __init__(self):
-        self.state = None          # None | ("up", t) | ("down", t)
+        self.state = None          # None | ("up", t) | ("down", t, mux | None, bytes so far | None)
 
     def expect(self, req):
         """abort code that the standard demands for this request in the tracked state, or None"""
@@ -219,6 +222,14 @@ class Tracker:
                 return R.AB_TOGGLE
         return None
 
+    def completes_download(self, req):
+        """(mux, data) if req is the final segment of a download whose every frame was followed, else None"""
+        st = self.state
+        if (st and st[0] == "down" and st[3] is not None and len(req) == 8 and req[0] // 32 == 0
+                and (req[0] // 16) % 2 == st[1] and req[0] % 2 == 1):
+            return st[2], st[3] + bytes(req[1:8 - (req[0] // 2) % 8])
+        return None
+
     def update(self, req, rs):
         ccs = req[0] // 32
         r = rs[0] if len(rs) == 1 and len(rs[0]) == 8 else None
@@ -227,10 +238,24 @@ class Tracker:
         elif ccs in (2, 5):
             self.state = ("up", 0) if (r[0] // 2) % 2 == 0 else None
         elif ccs == 1:
-            self.state = ("down", 0) if (req[0] // 2) % 2 == 0 else None
+            if (req[0] // 2) % 2 == 0:
+                full = len(req) == 8
+                self.state = ("down", 0, R.frame_mux(req) if full else None, b"" if full else None)
+            else:
+                self.state = None
         elif self.state and ((ccs == 3 and self.state[0] == "up") or (ccs == 0 and self.state[0] == "down")):
             done = (r[0] % 2 == 1) if ccs == 3 else (req[0] % 2 == 1)
-            self.state = None if done else (self.state[0], 1 - self.state[1])
+            if done:
+                self.state = None
+            elif ccs == 3:
+                self.state = ("up", 1 - self.state[1])
+            else:
+                buf = self.state[3]
+                if buf is not None and len(req) == 8 and (req[0] // 16) % 2 == self.state[1]:
+                    buf = buf + bytes(req[1:8 - (req[0] // 2) % 8])
+                else:
+                    buf = None
+                self.state = ("down", 1 - self.state[1], self.state[2], buf)
         else:
             self.state = None
 
@@ -268,6 +293,15 @@ def oracle_run(c, o, refusals):
                     if got != code:
                         sig = "wrong_toggle_code" if code == R.AB_TOGGLE else "unknown_command_code"
                         return (sig, f"{where}: request {req.hex()} (tracked transfer {trk.state}) -> {[x.hex() for x in rs]}, expected abort 0x{code:08X}")
+            fin = trk.completes_download(req) if len(req) >= 1 else None
+            if fin is not None and ref.expected_download(fin[0][0], fin[0][1], fin[1])[0] == "ok":
+                # a segmented download driven by raw frames (segments may be partly filled anywhere)
+                (fi, fs), fdata = fin
+                fwhat = f"{where}: final segment {req.hex()} of a raw-frame download {fi:04X}:{fs:02X}, {len(fdata)} bytes {fdata[:24].hex()} in partly filled segments"
+                if rs and rs[0][0] == 0x80:
+                    return ("download_refused", f"{fwhat}: aborted with 0x{int.from_bytes(rs[0][4:8], 'little'):08X}")
+                if w != [(fi, fs, fdata)]:
+                    return ("segment_data_wrong", f"{fwhat}: write callbacks saw {[(i, s, b.hex()) for i, s, b in w]}")
             for i, s, b in w:
                 ref.store[(i, s)] = b
             if len(req) >= 1:
@@ -563,6 +597,40 @@ def fixed_cases():
     return out
 
 
+def seg_frames_of(idx, sub, chunks, sized):
+    """raw frames of a segmented download whose segments carry the given chunks (each 0..7 bytes)"""
+    total = sum(len(ch) for ch in chunks)
+    fr = [[0x21 if sized else 0x20, idx & 255, idx >> 8, sub] + (list(total.to_bytes(4, "little")) if sized else [0, 0, 0, 0])]
+    for k, ch in enumerate(chunks):
+        last = k == len(chunks) - 1
+        fr.append([((k % 2) << 4) | ((7 - len(ch)) << 1) | (1 if last else 0)] + list(ch) + [0] * (7 - len(ch)))
+    return fr
+
+
+def partial_segment_cases(rng, n):
+    """segmented downloads (size indicated / not) whose non-final segments are partly filled (1..6 bytes, legal
+    CiA 301), each followed by an upload; the write callback and the data_store must hold the concatenation"""
+    u32 = var(0x2002, 0x07, default={"i": 5})
+    dic = [var(0x2001, R.DOMAIN), u32, var(0x2003, 0x1B),
+           dict(index=0x2004, kind="arr", subs=[entry(0, 0x05, "ro", default={"i": 2}), entry(1, R.OCTET, "rw", default={"b": [1]})])]
+    out = []
+    fixed = [[7, 7, 7, 7, 7, 2, 7, 7, 7, 4], [1, 1], [6, 7], [3, 0], [2, 5, 7, 1, 6, 3, 4, 0], [6], [1, 6, 7]]
+    for k in range(n):
+        sizes = fixed[k] if k < len(fixed) else [rng.randrange(1, 8) for _ in range(rng.randrange(1, 7))] + [rng.randrange(0, 8)]
+        if k >= len(fixed) and all(x == 7 for x in sizes[:-1]):
+            sizes[rng.randrange(len(sizes) - 1)] = rng.randrange(1, 7)
+        chunks = [rbytes(rng, x) if rng.random() < 0.8 else [0] * x for x in sizes]
+        idx, sub = rng.choice([(0x2001, 0), (0x2001, 0), (0x2004, 1), (0x2004, 9)])
+        ops = [["f", f] for f in seg_frames_of(idx, sub, chunks, rng.random() < 0.5)] + [["u", idx, sub]]
+        if rng.random() < 0.4:      # numeric entries written in pieces: 4 = 1+3, 8 = 3+5 ...
+            a = rng.randrange(1, 4)
+            ops += [["f", f] for f in seg_frames_of(0x2002, 0, [rbytes(rng, a), rbytes(rng, 4 - a)], rng.random() < 0.5)] + [["u", 0x2002, 0]]
+            b = rng.randrange(1, 7)
+            ops += [["f", f] for f in seg_frames_of(0x2003, 0, [rbytes(rng, b), rbytes(rng, min(7, 8 - b)), rbytes(rng, 8 - b - min(7, 8 - b))], False)] + [["u", 0x2003, 0]]
+        out.append(run_case(dic, ops))
+    return out
+
+
 def long_cases(rng, lengths):
     out = []
     for n in lengths:
@@ -583,6 +651,7 @@ def gen_cases(rng, tier):
         cases.append(history_case(rng, rng.randrange(2, 12)))
     for _ in range(ng):
         cases.append(garbage_case(rng, rng.randrange(1, 12)))
+    cases += partial_segment_cases(rng, {"quick": 60, "thorough": 600, "search": 300}[tier])
     if tier == "quick":
         cases += long_cases(rng, [70, 127, 700])
     elif tier == "thorough":
@@ -600,6 +669,9 @@ def shrink(c):
     ops = c["ops"]
     for i in range(len(ops)):
         yield dict(c, ops=ops[:i] + ops[i + 1:])
+    for i in range(len(ops) - 1):       # two consecutive segments at once keep the toggle sequence intact
+        if ops[i][0] == "f" and ops[i + 1][0] == "f":
+            yield dict(c, ops=ops[:i] + ops[i + 2:])
     for i, op in enumerate(ops):
         if op[0] == "d" and len(op[3]) > 0:
             yield dict(c, ops=ops[:i] + [[op[0], op[1], op[2], op[3][:len(op[3]) // 2], op[4]]] + ops[i + 1:])
